@@ -41,7 +41,7 @@ KStep(d, Q, op) ==
            @@ KOpt(pub[1], [ pk |-> Ser33(pub[2]) ])
            @@ KOpt(op.op \in {4, 5}, [ par |-> KaParity(Q) ])
            @@ KOpt(op.op = 5 /\ sec[1], [ kpk |-> Ser33(C), kx |-> X32(C), kpar |-> KaParity(C) ])
-           @@ KOpt(op.op = 5 /\ pub[1], [ chk |-> B2I(KaTweakAddCheck(X32(pub[2]), KaParity(pub[2]), Q, op.t)) ])
+           @@ KOpt(op.op = 5 /\ pub[1], [ chk |-> B2I(KaTweakAddCheckR(X32(pub[2]), KaParity(pub[2]), pub)) ])  \* pub = KaXonlyTweakAdd(Q, t)
   IN  [ ok |-> sec[1] /\ pub[1], d |-> sec[2], Q |-> pub[2], rec |-> r ]
 RECURSIVE KChain(_, _, _, _)
 KChain(d, Q, ops, acc) ==
@@ -127,11 +127,12 @@ RECURSIVE KResolve(_, _, _, _)
 KResolve(d, descr, j, acc) ==
   IF j > Len(descr) THEN acc
   ELSE LET op == descr[j][1]
-           base == IF op = 5 THEN KaSecEven(d) ELSE d
+           base == IF op \in {4, 5} THEN KaSecEven(d) ELSE d
            tv == KTweak(descr[j][2], base, j)
            t == IF op \in {3, 4} THEN << >> ELSE KB(IF Lt(tv, Pow2(256)) THEN tv ELSE KMax256)
            o == [ op |-> op, t |-> t ]
-           sec == KSec(d, IF op = 4 THEN PMulG(d) ELSE Inf, o)
+           sec == CASE op = 1 -> KaSecTweakAdd(d, t) [] op = 2 -> KaSecTweakMul(d, t) [] op = 3 -> KaSecNegate(d)
+                    [] op = 4 -> KaOk(base) [] op = 5 -> KaSecTweakAdd(base, t)
        IN  IF sec[1] THEN KResolve(sec[2], descr, j + 1, Append(acc, o)) ELSE Append(acc, o)
 KC(key, descr) == [ e |-> "KeyChain", in |-> [ key |-> KB(key), ops |-> KResolve(key, descr, 1, << >>) ] ]
 RndDescr(j) ==
@@ -140,6 +141,7 @@ RndDescr(j) ==
 
 \* signed small multiples of a base point: entry k stands for k*D (k < 0: the negated point)
 KBaseScalars == << One, Mod(FromBytesBE(Rnd32(43)), N) >>
+KBasePts == << G, PMulG(KBaseScalars[2]) >>                \* evaluated once
 KMultiple(Dp, k) == IF k > 0 THEN PMul(FromNat(k), Dp) ELSE PNeg(PMul(FromNat(0 - k), Dp))
 KEnc(Q, how) == CASE how % 3 = 0 -> PkEnc33(Q) [] how % 3 = 1 -> PkEnc65(Q) [] how % 3 = 2 -> PkEncHybrid(Q)
 CombLists == << << 1 >>, << 1, -1 >>, << 1, 2, -3 >>, << 1, -1, 2 >>, << 1, 1 >>, << 1, 1, 1 >>, << 1, -1, 1, -1 >>, << 2, 3, -5, 7 >>,
@@ -151,27 +153,33 @@ SortLens == { 0, 1, 2, 3, 5, 8, 39, 40, 41, 64, 200 } \cup (IF Thorough THEN { 4
 RECURSIVE KRun(_, _, _)
 KRun(Dp, Q, n) == IF n = 0 THEN << >> ELSE << Q >> \o KRun(Dp, PAdd(Q, Dp), n - 1)
 KSortList(len, mode, bi) ==
-  LET Dp == PMulG(KBaseScalars[bi])  pts == KRun(Dp, PMul(FromNat(4), Dp), IF len = 0 THEN 1 ELSE len)
+  LET Dp == KBasePts[bi]  pts == KRun(Dp, PMul(FromNat(4), Dp), IF len = 0 THEN 1 ELSE len)
       idx(j) == CASE mode = 1 -> ((j * 37 + 11) % len) + 1
                   [] mode = 2 -> (((j * 37 + 11) % len) % 7) + 1
                   [] mode = 3 -> j
                   [] mode = 4 -> 1
   IN  [ j \in 1..len |-> KEnc(pts[idx(j)], IF mode = 2 THEN j ELSE 0) ]
 
-StepKeys == IF Thorough THEN 1..Len(KeyPool) ELSE { 1, 4, 8, 10 }
+StepKeys == IF Thorough THEN 1..Len(KeyPool) ELSE { 1, 4, 10 }
+EdgeTweaks == { 1, 4, 5, 6, 7, 8, 12, 14, 20 }
 Cases ==
-       { << "step", ki, op, tk >> : ki \in StepKeys, op \in {1, 2, 5}, tk \in 1..NTweaks }
+       { << "step", ki, op, tk >> : ki \in StepKeys, op \in {1, 2, 5}, tk \in (IF Thorough THEN 1..NTweaks ELSE EdgeTweaks) }
+  \cup { << "step", 8, op, tk >> : op \in {1, 2, 5}, tk \in 1..NTweaks }
   \cup { << "step", ki, op, 1 >> : ki \in 1..Len(KeyPool), op \in {3, 4} }
-  \cup { << "rchain", j >> : j \in 1..(IF Thorough THEN 1500 ELSE 40) }
+  \cup { << "rchain", j >> : j \in 1..(IF Thorough THEN 1500 ELSE 30) }
   \cup { << "create", v, w >> : v \in { Zero, One, Sub(N, One), N, Add(N, One), KMax256, HalfN, Pow2(255), Mod(FromBytesBE(Rnd32(44)), N), Sub(P, One) }, w \in {0, 1} }
-  \cup { << "comb", k, bi, enc >> : k \in 1..Len(CombLists), bi \in 1..2, enc \in {0, 1} }
-  \cup { << "cmp", a, b, bi >> : a \in { -3, -2, -1, 1, 2, 3, 5 }, b \in { -3, -2, -1, 1, 2, 3, 5 }, bi \in 1..2 }
-  \cup { << "sort", len, mode, bi, al >> : len \in SortLens, mode \in 1..4, bi \in (IF Thorough THEN 1..2 ELSE {2}), al \in {0} }
+  \cup { << "comb", k, 2, enc >> : k \in 1..Len(CombLists), enc \in {0, 1} }
+  \cup { << "comb", k, 1, 0 >> : k \in 1..Len(CombLists) }
+  \cup { << "cmp", a, b, 2 >> : a \in { -3, -2, -1, 1, 2, 3, 5 }, b \in { -3, -2, -1, 1, 2, 3, 5 } }
+  \cup { << "cmp", a, b, 1 >> : a \in { -2, -1, 1, 2 }, b \in { -1, 1, 2 } }
+  \cup { << "sort", len, mode, bi, 0 >> : len \in SortLens, mode \in (IF Thorough THEN 1..4 ELSE 1..2), bi \in (IF Thorough THEN 1..2 ELSE {2}) }
+  \cup { << "sort", len, mode, 1, 0 >> : len \in { 2, 41 }, mode \in 3..4 }
   \cup { << "sort", len, 1, 2, al >> : len \in { 5, 41, 64 }, al \in { 2, 3 } }
-  \cup { << "tchk", ki, tk, mut >> : ki \in (IF Thorough THEN { 1, 4, 8, 9 } ELSE { 4, 8 }), tk \in { 1, 2, 3, 4, 5, 8, 13, 19 }, mut \in 0..6 }
+  \cup { << "tchk", ki, tk, mut >> : ki \in (IF Thorough THEN { 1, 4, 8, 9 } ELSE { 4, 8 }), tk \in (IF Thorough THEN { 1, 2, 3, 4, 5, 8, 13, 19 } ELSE { 1, 3, 4, 5, 8, 19 }), mut \in 0..6 }
 
 ExpandTchk(ki, tk, mut) ==
-  LET d == KaSecEven(KeyPool[ki])  Q == PMulG(d)
+  LET Q0 == PMulG(KeyPool[ki])  Q == KaEven(Q0)
+      d == IF KaParity(Q0) = 1 THEN SNeg(KeyPool[ki]) ELSE KeyPool[ki]
       tv == KTweak(tk, d, ki)  t == KB(IF Lt(tv, Pow2(256)) THEN tv ELSE KMax256)
       r == KaXonlyTweakAdd(Q, t)
       ox == IF r[1] THEN X32(r[2]) ELSE X32(Q)
@@ -197,7 +205,8 @@ TinyCases ==
   \cup { << "tcmp", a, b >> : a \in 1..(NN - 1), b \in 1..(NN - 1) }
   \cup { << "tsort", l >> : l \in TinyLists }
   \cup { << "tsortall", r >> : r \in 1..3 }
-  \cup { << "ttchk", k, t, x, par >> : k \in 1..(NN - 1), t \in (IF NN > 20 THEN { Zero, One, FromNat(NN - 1), N, KMax256 } ELSE TinyScalars),
+  \cup { << "ttchk", k, t, x, par >> : k \in (IF NN > 20 THEN { 1, 2, 3, 50, 99, 100, 197, 198 } ELSE 1..(NN - 1)),
+                                        t \in (IF NN > 20 THEN { Zero, One, FromNat(NN - 1), N, KMax256 } ELSE TinyScalars),
                                         x \in 1..((NN - 1) \div 2) \cup { 0 }, par \in {0, 1} }
   \cup { << "tkp", s >> : s \in TinyScalars }
 ExpandTiny(c) ==
@@ -217,9 +226,9 @@ Expand(c) ==
     [] c[1] = "rchain" -> KC(KeyPool[(c[2] % Len(KeyPool)) + 1], RndDescr(c[2]))
     [] c[1] = "create" -> IF c[3] = 1 THEN [ e |-> "PubkeyCreate", in |-> [ key |-> KB(c[2]) ] ]
                           ELSE [ e |-> "KeypairCreate", in |-> [ key |-> KB(c[2]) ] ]
-    [] c[1] = "comb"   -> LET Dp == PMulG(KBaseScalars[c[3]])  l == CombLists[c[2]] IN
+    [] c[1] = "comb"   -> LET Dp == KBasePts[c[3]]  l == CombLists[c[2]] IN
                           [ e |-> "PubkeyCombine", in |-> [ pks |-> [ j \in 1..Len(l) |-> KEnc(KMultiple(Dp, l[j]), c[4] * j) ] ] ]
-    [] c[1] = "cmp"    -> LET Dp == PMulG(KBaseScalars[c[4]]) IN
+    [] c[1] = "cmp"    -> LET Dp == KBasePts[c[4]] IN
                           [ e |-> "PubkeyCmp", in |-> [ a |-> KEnc(KMultiple(Dp, c[2]), c[2] + 3), b |-> KEnc(KMultiple(Dp, c[3]), c[3] + 4) ] ]
     [] c[1] = "sort"   -> [ e |-> "PubkeySort", in |-> IF c[5] = 0 THEN [ pks |-> KSortList(c[2], c[3], c[4]) ]
                                                         ELSE [ pks |-> KSortList(c[2], c[3], c[4]), alias |-> c[5] ] ]
@@ -248,8 +257,9 @@ InvCombine == (phase = "done" /\ cur[1] = "comb") =>
            /\ rec.out.ret = 1 => rec.out.pk = Ser33(PMulG(s))
 \* the tweak check accepts exactly the pair the tweak produces
 InvTchk == (phase = "done" /\ cur[1] = "tchk") =>
-  LET d == KaSecEven(KeyPool[cur[2]])  t == FromBytesBE(rec.in.t) IN
-  /\ cur[4] = 0 => (rec.out.ret = 1 <=> (Lt(t, N) /\ ~IsZero(SAdd(d, t))))   \* the secret-side characterisation of the public-side check
+  LET k == KeyPool[cur[2]]  t == FromBytesBE(rec.in.t) IN
+  /\ cur[4] = 0 => /\ rec.out.ret = 1 => Lt(t, N)                            \* refused exactly for t >= n and t = -d, d in {k, -k}
+                   /\ (rec.out.ret = 0 /\ Lt(t, N)) => t \in { k, Sub(N, k) }  \* (exact in the small groups: KFailures)
   /\ cur[4] \in { 1, 2 } => rec.out.ret = 0
   /\ (cur[4] \in { 3, 4 } /\ ~IsZero(t)) => rec.out.ret = 0                   \* (with the zero tweak the untweaked key IS the result;
                                                                             \*  mut 5 is accepted exactly when the tweaked key has odd y)
